@@ -44,6 +44,38 @@ CLAIMED = {
   "each Rust modifier IS the layer the model says is established by exhaustive correspondence over the finite "
   "perturbation domain on the 31-type family (the inductive universe of nestings is represented by that family)."),
 }
+ "C16": (
+  "60 machine-checked theorems (coq/Properties/C16.v, axiom-free): for each of the 36 bound System / SPL Token / ATA "
+  "instructions the framework-side encoding (declarations re-extracted from /repo on every run by tools/gen_extra_c16.py and "
+  "interpreted in Gallina) equals an independently written reference-side encoding (program id, data bytes, account metas) for "
+  "all argument values; every 82/165-byte image accepted by the reference unpack is accepted by validate / data_unchecked / data "
+  "with equal fields; the ATA helper hands the same seeds and program id to the PDA oracle. Two-sided correspondence (model vs "
+  "framework, model vs reference crates) plus direct framework-vs-reference comparison on 26k (quick) / 370k (thorough) cases.",
+  "PDA hashing is an oracle (Section variable). borsh / bincode primitives are modelled and tied by the correspondence. The multisig "
+  "signer tail of owner-signed token instructions is outside the bindings' argument space (proved not expressible, noted). The "
+  "reference crates define 'reference'. Found and fixed D17 (RecoverNested owner_ata writable)."),
+ "C18": (
+  "7 theorems (coq/Properties/C18.v, axiom-free) over a line-by-line transcription of star_frame_idl/src/verifier/mod.rs: for every "
+  "definition set and both resolution modes verify = Ok iff the set is Sound (an independent declarative spec: trimmed namespaces "
+  "non-empty and unique; every type / account-set / account reference at every position resolves under the mode with matching "
+  "generic arity; every Many has max >= min; every Or non-empty); a reported rule id is a rule that is violated; acceptance is "
+  "invariant under permutation of the definitions. No size bound. Tied to /repo by an exhaustively enumerated small universe "
+  "(405,856 sets in the thorough tier, ~9k sampled quick), random larger graphs and all single-edit mutants of the shipped "
+  "System/Token/ATA IDLs, compared on Ok / rule id, and judged by an independent Python soundness oracle.",
+  "Rule ids are regenerated from the Rust source (tools/gen_extra_c18.py). BTreeMaps are association lists; strings are code-point "
+  "lists; str::trim strips Unicode White_Space; fields the verifier never reads are dropped. The case decoder, the Rust case "
+  "builder and the Python oracle are trusted plumbing."),
+ "C19": (
+  "20 theorems (coq/Properties/C19.v, axiom-free) over a model of Rust's documented layout rules (alignment / size / padding under "
+  "repr(Rust|C|transparent|int, packed(N), align(N))) and of the decisions of derive(Align1), #[zero_copy], the generated packed sized "
+  "part and the ZST placement rule, transcribed from the proc-macro sources: an accepted Align1 type has alignment 1, accepted "
+  "zero_copy / sized parts have no padding and validate every field's bit pattern, a zero-sized component anywhere but last is "
+  "rejected, the documented valid forms are accepted. Tied to /repo by compiling 360 (quick) / 5000 (thorough) generated "
+  "declarations with the real macros (accept / reject per declaration, align_of / size_of / bit-pattern tables printed by the "
+  "accepted ones) and comparing with the extracted model; the predicate checks align_of == 1 etc. directly.",
+  "rustc's layout algorithm is modelled from the Reference, not verified; bytemuck's derive-time padding assertion is modelled as the "
+  "function it is. Found and fixed D13 (derive(Align1) accepted repr(align(N>1)))."),
+}
 REASON = "not claimed yet: model and correspondence check under construction (design in DESIGN.md section 5)"
 NA = {}
 
